@@ -6,7 +6,7 @@ from common import *
 import programs
 from programs import gen_program, run_program, trace
 
-KINDS = ['ew', 'ew', 'bin', 'bin', 'binc', 'getitem', 'sum', 'transpose', 'reshape', 'dot', 'dotc', 'outer', 'prod', 'buffer', 'linalg']
+KINDS = ['ew', 'ew', 'bin', 'bin', 'binc', 'getitem', 'sum', 'transpose', 'reshape', 'dot', 'dotc', 'outer', 'prod', 'buffer', 'linalg', 'fftfilter']
 
 
 def make_case(rng, tier, D=None, P=None):
